@@ -613,6 +613,19 @@ def _run(t: str, s: int) -> Result:
 
     shutil.rmtree(d, ignore_errors=True)
 
+    def _kinds(x, acc):
+        if isinstance(x, dict):
+            if isinstance(x.get("k"), str):
+                acc.add(x["k"])
+            for v_ in x.values():
+                _kinds(v_, acc)
+        elif isinstance(x, list):
+            for v_ in x:
+                _kinds(v_, acc)
+        return acc
+
+    ir_kinds = sorted(_kinds(programs, set()))
+
     records = []
     for cid, l in sorted(lines.items()):
         m = meta[cid]
@@ -629,5 +642,5 @@ def _run(t: str, s: int) -> Result:
         exhaustive_input_kernels=len(gen_cases), exhaustive_input_behaviours=gen_expected,
         coverage=ra.coverage, records=records, traces=traces, wide_bad=wide_bad, chain_bad=chain_bad, chained=chained,
         float_bad=float_bad, float_compared=float_compared, probe_bad=probe_bad, probes=len(probes),
-        native_tasks=len(tasks), wide_tasks=len(wide_tasks), structure=structure,
+        native_tasks=len(tasks), wide_tasks=len(wide_tasks), structure=structure, ir_kinds=ir_kinds,
     )
